@@ -27,7 +27,8 @@ from urllib.request import OpenerDirector
 from xml.etree import ElementTree
 from xml.etree.ElementTree import Element
 
-from elementpath import XPathToken, SchemaElementNode, build_schema_node_tree
+from elementpath import ElementPathError, XPathToken, SchemaElementNode, \
+    build_schema_node_tree
 
 import xmlschema.names as nm
 from xmlschema.aliases import XMLSourceType, NsmapType, LocationsType, UriMapperType, \
@@ -1752,7 +1753,10 @@ class XMLSchemaBase(XsdValidator, ElementPathMixin[Union[SchemaType, XsdElement]
                     if match:
                         namespace = get_namespace_ext(key[match.start():], namespaces)
                         schema = self.get_schema(namespace)
-                        xsd_element = schema.find(key, namespaces)
+                        try:
+                            xsd_element = schema.find(key, namespaces)
+                        except ElementPathError:
+                            pass  # not a name usable as path (e.g. a GData key)
 
         if not isinstance(xsd_element, XsdElement):
             if path is not None:
